@@ -16,7 +16,8 @@ def cases(rng, tier, focus):
                         yield dict(d=d, kind=kind, grid=grid, loc='fpoints', cell=cell, n=int(rng.integers(30, 60)), g=int(rng.integers(3, 8)), seed=int(rng.integers(0, 10 ** 6)))
 
 # witness of the recorded effdim finding (known_findings.txt), evaluated on every run
-PINNED = [dict(d=3, kind='multimodal', grid='points', loc='fpoints', cell=True, n=37, g=5, seed=159705)]
+PINNED = [dict(d=3, kind='multimodal', grid='points', loc='fpoints', cell=True, n=37, g=5, seed=159705),
+          dict(d=1, kind='anisotropic', grid='points', loc='fpoints', cell=False, n=50, g=3, seed=988514)]      # second witness: non-terminating bisection (OverflowError)
 
 def nontrivial(c): return (c['d'], c['kind'], c['grid'], c['loc'], c['cell'], c['seed'] % 3)
 
